@@ -31,7 +31,7 @@ pub fn gen13(tier: &str, rng: &mut Rng) -> Vec<Spec> {
         if i % 2 == 0 { v.push(Spec::new("ema").with("pre", g(rng).show()).with("xs", join_rats(&xs))); }
         else { v.push(Spec::new("expmed").with("pre", g(rng).show()).with("mid", g(rng).show()).with("post", g(rng).show()).with("xs", join_rats(&xs))); }
     }
-    v
+    with_entry_points(v, rng, &["ema", "expmed"], 12)
 }
 pub fn exec13(s: &Spec, stats: &mut Stats) -> Outcome {
     let xs = s.rats("xs"); stats.bump(format!("len:{}", xs.len()));
@@ -44,11 +44,11 @@ pub fn exec13(s: &Spec, stats: &mut Stats) -> Outcome {
         let cfg = xmed::Config { pre: ema::Config { inverse_width: pre.to_f64() }, mid: mid.to_f64(), post: ema::Config { inverse_width: post.to_f64() } };
         (1, mid, post, run_all(&mut ViaF64(xmed::Median::with_config(cfg)), &xs))
     } else if s.kind == "ema" {
-        (0, Rat::int(0), Rat::int(0), run_all(&mut ema::Mean::with_config(ema::Config { inverse_width: pre }), &xs))
+        (0, Rat::int(0), Rat::int(0), run_all(&mut prep(ema::Mean::with_config(ema::Config { inverse_width: pre }), s, stats), &xs))
     } else {
         let (mid, post) = (s.rat("mid"), s.rat("post"));
         let cfg = xmed::Config { pre: ema::Config { inverse_width: pre }, mid, post: ema::Config { inverse_width: post } };
-        let built = xmed::Median::with_config(cfg);
+        let built = prep(xmed::Median::with_config(cfg), s, stats);
         let mut f = if xs.len() % 2 == 0 { built } else { use signalo_traits::ConfigClone; xmed::Median::with_config(built.config()) };
         (1, mid, post, run_all(&mut f, &xs))
     };
